@@ -7,6 +7,11 @@ import SignaloModel.Proofs.BridgeHull
 import SignaloModel.Proofs.BridgeSinks
 import SignaloModel.Proofs.OwnedMedian
 import SignaloModel.Proofs.CascadeProofs
+import SignaloModel.Proofs.RegDiffInt
+import SignaloModel.Proofs.RegAlphaBeta
+import SignaloModel.Proofs.RegMeanVar
+import SignaloModel.Proofs.OwnedDeque
+import SignaloModel.Proofs.OwnedRuns
 import Mathlib.Algebra.Order.Field.Rat
 /-!
 Non-vacuity: the hypotheses of the registry-level property theorems are met by a concrete sample type (`ℚ`, with the
@@ -74,5 +79,39 @@ example : |Fir.convL (Tables.lowOf Gen.db4raw).reverse (fun m => Fir.convL (Tabl
           (fun m => Fir.convL (Tables.highOf (Tables.lowOf Gen.db4raw)) (fun _ => (3 : ℚ)) m) 9
       - (fun _ => (3 : ℚ)) (9 - (Gen.db4raw.length - 1))| ≤ Gen.dec 1 8 * 3 :=
   Tables.db_reconstructs (4, Gen.db4raw) (by decide) (fun _ => 3) 3 (by intro m; norm_num) 9
+
+/-- C15: both compositions, on a signal with a non-zero first sample -/
+example : ∃ s₁ s₂ ds, (Cfg.differentiate : Cfg ℚ).init.run (sing (5 :: [7, 4])) = some (s₁, sing ds) ∧
+    (Cfg.integrate : Cfg ℚ).init.run (sing ds) = some (s₂, sing ((5 :: [7, 4]).map (· - 5))) :=
+  integrate_differentiate_registry 5 [7, 4]
+
+example : ∃ s₁ s₂ is, (Cfg.integrate : Cfg ℚ).init.run (sing (5 :: [7, 4])) = some (s₁, sing is) ∧
+    (Cfg.differentiate : Cfg ℚ).init.run (sing is) = some (s₂, sing (0 :: [7, 4])) :=
+  differentiate_integrate_registry 5 [7, 4]
+
+/-- C14: superposition of two different signals with two different scalars -/
+example : ∃ s sx sy ox oy,
+    (Cfg.alphaBeta (1/2 : ℚ) (1/8)).init.run (sing [1, 4, 2]) = some (sx, sing ox) ∧
+    (Cfg.alphaBeta (1/2 : ℚ) (1/8)).init.run (sing [0, 3, 9]) = some (sy, sing oy) ∧
+    (Cfg.alphaBeta (1/2 : ℚ) (1/8)).init.run (sing (List.zipWith (fun x y => 2 * x + (-3) * y) [1, 4, 2] [0, 3, 9])) =
+      some (s, sing (List.zipWith (fun p q => 2 * p + (-3) * q) ox oy)) :=
+  alphaBeta_registry_linear _ _ 2 (-3) [1, 4, 2] [0, 3, 9] rfl
+
+/-- C16: width 3, gain 1/4 -/
+example : ∃ s' ps, (Cfg.meanVar 3 : Cfg ℚ).init.run (sing [1, 2, 4, 8]) = some (s', pairs ps) ∧ ∀ p ∈ ps, 0 ≤ p.2 :=
+  meanVar_registry_nonneg 3 (by decide) _
+
+example : ∃ s₁ s₂ ps, (Cfg.emeanVar (1/4 : ℚ) : Cfg ℚ).init.run (sing [1, 2, 4]) = some (s₁, pairs ps) ∧
+    (Cfg.emeanVar (1/4 : ℚ) : Cfg ℚ).init.run (sing (([1, 2, 4] : List ℚ).map (· + 100))) =
+      some (s₂, pairs (ps.map (fun p => (p.1 + 100, p.2)))) :=
+  emeanVar_registry_offset _ 100 _
+
+/-- C19: the ring-buffer filters and the deques -/
+example : ∃ s' ys, (Cfg.max 3 : Cfg ℚ).init.run (sing [5, 4, 3, 2, 1]) = some (s', ys) ∧
+    s'.owned ≤ min 5 3 ∧ (([5, 4, 3, 2, 1] : List ℚ) ≠ [] → 1 ≤ s'.owned) :=
+  owned_max_registry 3 (by decide) (by decide) _
+
+example : ∃ s' ys, (Cfg.convolve ([1, 2, 3] : List ℚ)).init.run (sing [5, 0]) = some (s', ys) ∧ s'.owned = 3 + 3 :=
+  owned_convolve_registry [1, 2, 3] (by decide) [5, 0] (by simp)
 
 end SignaloModel.NonVacuity
